@@ -35,6 +35,59 @@ b('attempt-record-written-before-state-marker', None, ["C08","C09","C02","C05","
 b('retry-delay-5s', [(H,'const RETRY_DELAY: Duration = Duration::from_secs(1);','const RETRY_DELAY: Duration = Duration::from_secs(5);'),(P,'const RETRY_DELAY: Duration = Duration::from_secs(1);','const RETRY_DELAY: Duration = Duration::from_secs(5);')], ["C02","C06","C16","C09","C11"])
 b('channel-capacity-4', [(H,'let (s1, r1) = mpsc::channel(1);','let (s1, r1) = mpsc::channel(4);'),(H,'let (s2, r2) = mpsc::channel(1);','let (s2, r2) = mpsc::channel(4);')], ["C06","C07","C14","C11","C02"])
 
+b('sequential-part-waits', [(P,'let mut tasks = FuturesUnordered::new();','let mut tasks = Vec::new();'),
+  (P,'while let Some(res) = tasks.next().await {','for t in tasks {\n            let res = t.await;'),
+  (P,'use futures::{stream::FuturesUnordered, StreamExt};','')], ["C15","C16","C02","C05","C08","C09","C01"])
+b('mark-succeeded-before-resolve', [(H,"""            debug!("Payment succeeded, resolving payment with preimage.");
+            resolve(
+                &payments,
+                &trampoline,
+                HtlcAcceptedResponse::Resolve {
+                    payment_key: preimage.clone(),
+                },
+            )
+            .await;
+            if let Err(e) = params
+                .store
+                .mark_succeeded(&trampoline, &attempt_id, preimage)
+                .await
+            {
+                error!("Failed to mark payment as succeeded: {:?}", e);
+            }
+""","""            debug!("Payment succeeded, resolving payment with preimage.");
+            if let Err(e) = params
+                .store
+                .mark_succeeded(&trampoline, &attempt_id, preimage.clone())
+                .await
+            {
+                error!("Failed to mark payment as succeeded: {:?}", e);
+            }
+            resolve(
+                &payments,
+                &trampoline,
+                HtlcAcceptedResponse::Resolve {
+                    payment_key: preimage,
+                },
+            )
+            .await;
+""")], ["C08","C02","C05","C06","C07","C09","C01","C14"])
+EXP = """            // Ensure there's enough relative time to claim htlcs.
+            if req.htlc.cltv_expiry_relative < self.params.routing_policy.cltv_expiry_delta as i64 {
+                trace!(
+                    cltv_expiry_relative = req.htlc.cltv_expiry_relative,
+                    policy_cltv_expiry_delta = self.params.routing_policy.cltv_expiry_delta,
+                    "Relative cltv expiry too low."
+                );
+                payment_state
+                    .fail(self.trampoline_fee_or_expiry_insufficient())
+                    .await;
+            }
+
+"""
+b('expiry-check-after-fee-check', [(H,EXP,''),(H,"""            // Do add the htlc to the payment state always, also if it has
+""",EXP+"""            // Do add the htlc to the payment state always, also if it has
+""")], ["C03","C04","C02","C13","C14","C19","C01"])
+
 def sh(cmd, cwd=None):
     return subprocess.run(cmd, shell=True, cwd=cwd, capture_output=True, text=True)
 only = sys.argv[1] if len(sys.argv)>1 else ''
